@@ -87,7 +87,7 @@ def c01() -> int:
     quick = tier() == "quick"
     base = 4096 * seed()
     cap = 160 if quick else 1024
-    small = ["S1", "S2", "S3", "S2t"]
+    small = ["S1", "S2", "S3", "S2t", "S4"]
     big = ["S6"] if quick else ["S5", "S6"]
     big_seeds = 24 if quick else 96
     min_seeds = 0 if quick else 320  # thorough: keep going after 1-wise coverage (joint orders of several collections)
@@ -132,6 +132,7 @@ def c01() -> int:
             "S2": ["plug_ranking_tied", "station_search_tied", "two_vehicles_reach_same_target_same_step", "competing_instructions_same_target_same_step", "plug_granted_among_tied_queuers"],
             "S3": ["competing_instructions_same_target_same_step"],
             "S2t": ["two_vehicles_reach_same_target_same_step", "queued_vehicles_share_enqueue_time"],
+            "S4": ["plug_ranking_tied"],
         }
         for sc, cells in need.items():
             for cell in cells:
